@@ -82,6 +82,12 @@ def gen_cases(rng, n, big):
         for k in ('puback', 'pubrec', 'pubrel', 'pubcomp', 'unsuback'):
             yield (k, dict(msgId=i))
         yield ('suback', dict(msgId=i, granted=[(0, 0), (1, 0), (2, 0), (0, 1)]))
+    # acknowledgements whose remaining length needs two bytes: SUBACK with 126+ return codes; SUBSCRIBE/UNSUBSCRIBE naming many topics
+    for cnt in (125, 126, 127, 128, 200, 16381, 16382):
+        yield ('suback', dict(msgId=rng.choice(IDS[1:]), granted=[((i * 7) % 3, 0) if i % 11 else (0, 1) for i in range(cnt)]))
+    for cnt in (40, 130):
+        yield ('subscribe', dict(msgId=9, topics=[('t/%d' % i, i % 3) for i in range(cnt)]))
+        yield ('unsubscribe', dict(msgId=9, topics=['t/%d' % i for i in range(cnt)]))
     for s in (0, 1):
         for rc in (0, 1, 5, 6, 128, 255):
             yield ('connack', dict(session=s, resultCode=rc))
